@@ -50,9 +50,9 @@ def _gen_op(ch, depth):
 
 # the timers and their control events are defined in machines/c13/modes/m1/config/m1.yaml; ARGS mirrors the values there
 TIMERS = {"t_up": {"start": 0, "end": 5, "dir": 1, "interval": 1.0,
-                   "args": {"pause": 2, "add": 2, "subtract": 1, "jump": 3, "set_interval": 0.5}},
+                   "args": {"pause": 2, "pause0": 0, "add": 2, "subtract": 1, "jump": 3, "set_interval": 0.5}},
           "t_down": {"start": 4, "end": 0, "dir": -1, "interval": 0.25,
-                     "args": {"pause": 0, "add": 2, "subtract": 1, "jump": 2, "set_interval": 0.1}}}
+                     "args": {"pause": 1, "pause0": 0, "add": 2, "subtract": 1, "jump": 2, "set_interval": 0.1}}}
 
 
 def plan(ch, tier):
@@ -65,7 +65,7 @@ def _plan_timer(ch):
     knobs = draw_knobs(ch)
     ops = []
     for _ in range(3 + ch.choice("nops", 14)):
-        k = ch.weighted("top", [("start", 5), ("stop", 2), ("pause", 3), ("add", 2), ("subtract", 2), ("jump", 2),
+        k = ch.weighted("top", [("start", 5), ("stop", 2), ("pause", 3), ("pause0", 2), ("add", 2), ("subtract", 2), ("jump", 2),
                                 ("reset", 1), ("restart", 2), ("set_interval", 1)])
         op = {"op": k, "timer": ch.pick("timer", ["t_down", "t_up"]),
               "when": ch.weighted("twhen", [("rel", 3), ("tick", 3)]),
@@ -489,7 +489,7 @@ def _execute_timer(ctx, plan):
         apply_model(_n, _k)
 
     for _n in TIMERS:
-        for _k in ("start", "stop", "pause", "add", "subtract", "jump", "reset", "restart", "set_interval"):
+        for _k in ("start", "stop", "pause", "pause0", "add", "subtract", "jump", "reset", "restart", "set_interval"):
             sim.machine.events.add_handler("%s_%s" % (_n, _k), pre, priority=10 ** 6, _n=_n, _k=_k)
             sim.machine.events.add_handler("%s_%s" % (_n, _k), post, priority=-10 ** 6, _n=_n, _k=_k)
 
@@ -522,7 +522,7 @@ def _execute_timer(ctx, plan):
                 t.stop()
                 m["running"] = False
                 m["auto_start"] = None
-            elif k == "pause":
+            elif k in ("pause", "pause0"):
                 t.pause(op["arg"])
                 m["running"] = False
                 ctx.probe("timer_paused")
